@@ -648,3 +648,59 @@ func (b *bisection) probeCond(p *Path) *Cond {
 	}
 	return out
 }
+
+// typeFrame (rule `method-frame`): the rules of a container property are tables over the methods that the property
+// names. Every OTHER function of the package that gets hold of the container - a method of the type added later (a
+// String for fmt, a Len, a Reset), or a package function taking it - must leave it alone, or the tables are not the
+// whole story: it may write nothing but its own locals (no element store, no store through the receiver, no call of
+// anything that writes its arguments), by the bottom-up effect summary. One obligation per such function.
+func typeFrame(c *Ctx, rule, pkg string, typeNames []string, modelled map[string]bool) {
+	isT := func(t types.Type) bool {
+		if p, ok := t.(*types.Pointer); ok {
+			t = p.Elem()
+		}
+		var name string
+		switch n := t.(type) {
+		case *types.Named:
+			if n.Obj().Pkg() == nil || shortPkg(n.Obj().Pkg().Path()) != pkg {
+				return false
+			}
+			name = n.Obj().Name()
+		default:
+			return false
+		}
+		for _, tn := range typeNames {
+			if tn == name {
+				return true
+			}
+		}
+		return false
+	}
+	for _, fi := range c.P.FuncsOfPkg(pkg) {
+		if modelled[fi.Name] || c.P.Skip[fi] {
+			continue
+		}
+		sig := fi.Obj.Type().(*types.Signature)
+		touches := sig.Recv() != nil && isT(sig.Recv().Type())
+		for i := 0; i < sig.Params().Len() && !touches; i++ {
+			touches = isT(sig.Params().At(i).Type())
+		}
+		if !touches {
+			continue
+		}
+		es := c.An.FuncEffects(fi.SSA)
+		var writes []string
+		if es.all {
+			writes = append(writes, "anything (a call whose effects are unknown, a lock or a channel operation)")
+		}
+		for cl := range es.cls {
+			writes = append(writes, cl)
+		}
+		sort.Strings(writes)
+		o := c.R.Decide(len(writes) == 0, rule, fi.Name, "read-only", c.pos(fi), "writes nothing but its own locals",
+			"is not one of the methods the rules of this check model, yet it may write "+strings.Join(writes, ", ")+": the container can change behind the modelled operations")
+		if len(writes) > 0 {
+			o.Breaks = "an accessor, formatter or helper that reorders, truncates or overwrites the container breaks the order and content the modelled operations maintain"
+		}
+	}
+}
